@@ -2082,6 +2082,15 @@ class _GroupElem(ABC):
         dims = np.max(coordinates_n, 0) - np.min(coordinates_n, 0) + 1
         # here dims is a 3d array used in __Get_coordoNear to check if coordinates_n comes from an image/grid
         # If the coordinates come from an image/grid, the _Get_coordoNear function will be faster.
+        if coordinates_n.dtype == int and dims[0] * dims[1] == coordinates_n.shape[0]:
+            # the shortcut reads the index of a pixel from its coordinates: it holds for the pixels
+            # of an image listed row by row from (0, 0) only, not for any full grid of integer points
+            nX, nY = int(dims[0]), int(dims[1])
+            isImage = np.array_equal(
+                coordinates_n[:, 0], np.tile(np.arange(nX), nY)
+            ) and np.array_equal(coordinates_n[:, 1], np.repeat(np.arange(nY), nX))
+            if not isImage:
+                dims = np.zeros_like(dims)
 
         if needCoordinates:
             # Here we want to know the coordinates of the nodes in
